@@ -11,9 +11,9 @@ Request (one line, a token stream):
   run <guard:0|1> <op> <op> …
   op   := mkD arg val | mkI arg val | mkM n recipe^n | setA arg | setV val | setS arg
         | app recipe | ext n recipe^n | ins int recipe | rem recipe | pop int | popd | clr | rev
-        | gi int | gs oint oint oint | ga intvec | cat n srecipe^n
-  arg  := da natvec nat | ia n (int natvec nat)^n | oa | ba
-  val  := dv natvec natvec | iv n (int natvec nat)^n | ov | bv
+        | gi int | gs oint oint oint | ga intvec | cat n srecipe^n | bi a<k> | bi v<k>
+  arg  := da natvec nat | ia n (int natvec nat)^n | oa | ba<k>
+  val  := dv natvec natvec | iv n (int natvec nat)^n | ov | bv<k>
   recipe := D arg val | I arg val        srecipe := U recipe | M n recipe^n
 Answer: `<out> <state> <observers>` per step, joined by ` || `.
 -/
@@ -86,8 +86,8 @@ def pArg : P ArgV
     | some (pts, ts) => (pNat ts).map fun (g, ts) => (.dense pts g, ts)
   | "ia" :: ts => (pCounted pAObs ts).map fun (os, ts) => (.irreg os, ts)
   | "oa" :: ts => some (.other, ts)
-  | "ba" :: ts => some (.bad, ts)
-  | _ => none
+  | t :: ts => if t.startsWith "ba" then some (.bad, ts) else none   -- `ba<k>`: k-th way of failing to build
+  | [] => none
 
 def pVal : P ValV
   | "dv" :: ts =>
@@ -96,8 +96,8 @@ def pVal : P ValV
     | some (rows, ts) => (pNatVec ts).map fun (pts, ts) => (.dense rows pts, ts)
   | "iv" :: ts => (pCounted pVObs ts).map fun (os, ts) => (.irreg os, ts)
   | "ov" :: ts => some (.other, ts)
-  | "bv" :: ts => some (.bad, ts)
-  | _ => none
+  | t :: ts => if t.startsWith "bv" then some (.bad, ts) else none
+  | [] => none
 
 def pRecipe : P Recipe
   | "D" :: ts =>
@@ -149,6 +149,7 @@ def pOp : P Op
       | some (b, ts) => (pOInt ts).map fun (c, ts) => (.getitem (.slice a b c), ts)
   | "ga" :: ts => (pIntVec ts).map fun (v, ts) => (.getitem (.arr v), ts)
   | "cat" :: ts => (pCounted pSRecipe ts).map fun (rs, ts) => (.concat rs, ts)
+  | "bi" :: t :: ts => some (.badItem (t.startsWith "v"), ts)     -- `bi a<k>` / `bi v<k>`
   | _ => none
 
 /-- Parse all operations (fuel = number of tokens). -/
